@@ -81,14 +81,30 @@ def correspondence(chk: common.Check, corpus, variant, own, rng, n_synth: int, t
     text = f"variant {variant[0]} {variant[1]} {int(own)}\n"
     dist = defaultdict(int)
 
-    def add(label, reaction, couplings, flags, kind, desc=None):
+    def add(label, reaction, couplings, flags, kind, desc=None, dyn=()):
         nonlocal text
         can = reaction.formalism.startswith("canonical")
-        obs = M.observe(reaction, couplings, flags)
-        text += M.lean_block(can, couplings, flags, reaction.transitions)
+        obs = M.observe(reaction, couplings, flags, dyn)
+        text += M.lean_block(can, couplings, flags, reaction.transitions, dyn)
         cases.append({"label": label, "reaction": reaction, "couplings": couplings, "flags": flags, "obs": obs,
-                      "kind": kind, "desc": desc})
+                      "kind": kind, "desc": desc, "dyn": dyn})
         dist[f"{kind}:{reaction.formalism}:{'couplings' if couplings else 'coefficients'}"] += 1
+        if dyn:
+            dist["cases-with-lineshapes"] += 1
+
+    def dyn_for(reaction, r):
+        """assign a library builder (or the marker) to every resonance; sometimes leave one out."""
+        can = reaction.formalism.startswith("canonical")
+        names = sorted({t.states[e].particle.name for t in reaction.transitions for e in t.topology.intermediate_edge_ids})
+        out = []
+        for i, n in enumerate(names):
+            u = r.random()
+            if u < 0.15 and len(names) > 1:
+                continue
+            out.append((n, "marker" if u < 0.45 else ("bwff" if can else "bw")))
+        if can and out and r.random() < 0.3:
+            out.append((out[0][0], "ff"))  # a later assign() overrides the earlier one
+        return tuple(out)
 
     for name, reaction in corpus.items():
         can = reaction.formalism.startswith("canonical")
@@ -96,6 +112,7 @@ def correspondence(chk: common.Check, corpus, variant, own, rng, n_synth: int, t
             continue
         add(name, reaction, False, default_flags(can), "corpus")
         add(name, reaction, True, default_flags(can), "corpus")
+        add(name, reaction, False, default_flags(can), "corpus-lineshapes", dyn=dyn_for(reaction, rng))
         extra = L.flag_combinations(can)
         if not thorough:
             extra = [f for f in extra if f != default_flags(can)]
@@ -114,9 +131,12 @@ def correspondence(chk: common.Check, corpus, variant, own, rng, n_synth: int, t
         n_ok += 1
         couplings = rng.random() < 0.4
         fl = default_flags(can) if rng.random() < 0.6 else rng.choice(L.flag_combinations(can))
-        add(f"synthetic#{tries}", reaction, couplings, fl, "synthetic-identical" if ident else "synthetic", desc)
+        add(f"synthetic#{tries}", reaction, couplings, fl, "synthetic-identical" if ident else "synthetic", desc,
+            dyn=dyn_for(reaction, rng) if rng.random() < 0.5 else ())
         dist[f"topology:{len(desc['particles'])}-edges"] += 1
-    blocks = M.parse_lean_blocks(common.lean_run(DRIVER, text))
+    M.RECON["dyn_tuples"] = set()
+    blocks = M.parse_lean_blocks(common.lean_run(DRIVER, text), [M.particles_of(c["reaction"]) for c in cases])
+    chk.info("distinct_lineshape_calls_reconstructed", len(M.RECON["dyn_tuples"]))
     if len(blocks) != len(cases):
         chk.broken_correspondence("driver", f"{len(blocks)} blocks for {len(cases)} cases")
         return cases
@@ -139,7 +159,8 @@ def correspondence(chk: common.Check, corpus, variant, own, rng, n_synth: int, t
             n_bad += 1
             if n_bad <= 3:
                 chk.broken_correspondence("model-vs-code", {"case": case["label"], "couplings": case["couplings"],
-                                                            "flags": case["flags"], **{k: str(v)[:400] for k, v in d.items()}})
+                                                            "flags": case["flags"], "lineshapes": case["dyn"],
+                                                            **{k: str(v)[:400] for k, v in d.items()}})
     chk.info("correspondence_cases", len(cases))
     chk.info("correspondence_mismatches", n_bad)
     chk.info("cases_where_the_theorem_hypothesis_is_false", wf_false)
@@ -396,7 +417,9 @@ class C02Property:
             "graphs of different spin groups have different outer projections), evaluated by the Lean model on every case; for "
             "the builder up to 043d8fb it additionally needs wellGrouped (false for identical final-state particles with unequal "
             "helicities: witness theorem)",
-            "lineshapes: default (no dynamics) in the correspondence; dynamics attachment is C13's property",
+            "lineshapes: library builders (relativistic BW with/without form factor, form factor only) and an opaque marker are "
+            "assigned by particle name; the inside of the lineshape expressions is C09-C12's business",
+            "aligned intensities: C05's wiring theorem + C02 for the unaligned amplitudes",
         ]
         return chk.finish()
 
@@ -419,6 +442,12 @@ MANIFEST = {
         "of them, nothing dropped or doubled). Kernel-checked witness C02_witness_unequal_identical: with the builder up to "
         "043d8fb two identical final-state particles with unequal helicities were summed coherently (impl != spec; replayed on "
         "psi(2S) -> gamma gamma J/psi; repaired as f1f7ff8, the variant is inferred by a probe on every run). "
+        "Lineshapes are part of the skeleton: every node term carries (builder id, particle, m_parent, m_child1, m_child2, L, "
+        "phi, theta) as the builder receives them (`__formulate_dynamics`, `_generate_kinematic_variable_set`, DynamicsSelector "
+        "keys incl. the identical-particle chains: C02_selector_covers), interpreted by an arbitrary function; the real "
+        "lineshape sub-trees are compared node by node by calling the library's own builders on the model's variable sets. "
+        "Aligned intensities (AxisAngleAlignment, DalitzPlotDecomposition) are NOT modelled here: they are covered by C05's "
+        "wiring theorem for the top-level structure together with C02 for the unaligned amplitudes it refers to. "
         "Special functions are uninterpreted (no Wigner-D/CG theory needed); numeric agreement of the real lambdified "
         "expression with an independent numpy evaluation of the formula is checked on every run (oracle), not proved."
     ),
@@ -426,7 +455,8 @@ MANIFEST = {
         "Trusted: Lean kernel + Mathlib; the skeleton extraction (parses Add/Mul/WignerD/CG/Symbol/Number, everything else "
         "is flagged); SymPy's flattening and evaluation of WignerD/CG; qrules objects. Modelled line by line: grouping by spin "
         "projection and topology, amplitude symbols, last-writer-wins dict, child ordering, angle symbol names, D/CG "
-        "arguments, coefficient/coupling names, prefactor (C03 model), components, PoolSum pools. Not modelled: dynamics "
-        "(default create_non_dynamic only), spin alignment other than NoAlignment, kinematic variables."
+        "arguments, coefficient/coupling names, prefactor (C03 model), lineshape attachment and variable sets, components, "
+        "PoolSum pools. Not modelled: the inside of the lineshape expressions (C09-C12), spin alignment other than NoAlignment "
+        "(C05's wiring theorem + C02 for the unaligned amplitudes), kinematic variables (C07)."
     ),
 }
